@@ -1,4 +1,5 @@
 #!/bin/bash
+export VERIF_EVIDENCE_DIR=${VERIF_EVIDENCE_DIR:-/tmp/verif-evidence-scratch}; mkdir -p "$VERIF_EVIDENCE_DIR"
 # tools/mutant.sh <patch.diff> <property> [check args...]: apply a property-breaking patch to /repo, run the check, revert.
 # Sensitivity testing only; the patch is never committed to /repo.
 patch=$(realpath "$1"); prop=$2; shift 2
